@@ -3220,6 +3220,12 @@ class CV:
                 env, p2 = self.bind_target(x, '(%s %s)' % (proj, var), ty, env, node)
                 pre += p2
             return env, pre
+        if isinstance(target, ast.Tuple) and len(target.elts) == 3 and isinstance(ety, tuple) and ety[0] == 'P' \
+                and isinstance(ety[2], tuple) and ety[2][0] == 'P':
+            # a triple is carried as (a, (b, c))
+            env, p1 = self.bind_target(target.elts[0], '(fst %s)' % var, ety[1], env, node)
+            env, p2 = self.bind_target(ast.Tuple(elts=target.elts[1:], ctx=ast.Store()), '(snd %s)' % var, ety[2], env, node)
+            return env, p1 + p2
         die(node, 'loop target')
 
     # ---- statements
@@ -3630,6 +3636,10 @@ CONVERT_UNITS = [
                  params=[('votes', 'votes', CV_NESTED)]),
             dict(name='InvertedApprovalVotes_convert', cls='InvertedApprovalVotes', fn='convert', static=True,
                  params=[('votes', 'votes', CV_APPROVAL)]),
+            # votelib.util.all_rankings is a generator with a while loop: not translated, a function parameter (candidate, (rank, count))
+            dict(name='RankedToPresenceCounts_convert', cls='RankedToPresenceCounts', fn='convert',
+                 ext={'votelib.util.all_rankings': ('all_rankings', [CV_RANKED], TL(TP(T_C, TP(T_Z, T_Q))), 'votelib.util')},
+                 params=[('votes', 'votes', CV_RANKED)]),
         ]),
     ]),
     # dynamically typed, nested loops over the ranks: its own unit, so that a rewrite the translator refuses leaves the unit above alone
